@@ -31,7 +31,7 @@ func init() {
 			"plus the percent-decoding and reflect panic-freedom rules of C13.",
 		NotDecided:  "response bytes for all outcomes and message counts; base64 framing of text mode; that percent-decoding equals a reference decoder; most of C14 is input/output behaviour.",
 		Assumptions: []string{"the transcribed Twirp status table (used when the module-cache source is absent) matches Twirp v8"},
-		Rules: []Rule{
+		Rules: append([]Rule{
 			{ID: "C14.R1", Doc: "LimitReader bound exceeds the limit it is tested against; grpc-web sizes are compared with maxSize before reading / writing", Run: c14r1},
 			{ID: "C14.R2", Doc: "defaultProtocols: key == response content type; +json <-> JSON codecs; -text <-> base64 reader/writer; '*' fallback present", Run: c14r2},
 			{ID: "C14.R3", Doc: "grpc-web frame header: writer and reader agree (5 bytes, flags, big-endian uint32 at [1:5]); message flag 0, trailer flag 0x80", Run: c14r3},
@@ -40,7 +40,10 @@ func init() {
 			{ID: "C14.S1", Alias: "C13.R1"},
 			{ID: "C14.S2", Alias: "C13.R2"},
 			{ID: "C14.S3", Alias: "C13.R4"},
-		},
+			{ID: "C14.R7", Doc: "the Twirp stream is one-shot per direction: MsgSend/MsgRecv test their sticky error first and leave it non-nil (the operation's error or io.EOF) on every way out", Run: c14r7},
+			{ID: "C14.R6", Doc: "metadata header decoding: unhex accepts exactly the hexadecimal digits with their values (table read off its comparisons, all 256 bytes); an escape is 16*high+low of the two bytes after '%', malformed escapes are errors; key/value are the decoded text before/after the first '='", Run: c14r6},
+			{ID: "C14.S4", Doc: "error codes are found below Cause()- and Unwrap()-style wrappers alike (getCode and drpcerr.Code)", Alias: "C10.R6"},
+		}, disciplineRules("C14", "drpchttp")...),
 	})
 }
 
